@@ -158,6 +158,16 @@ def run(ctx):
                 ctx.fail("R02-checked-only", "%s:%s" % (f.key, nm), t.span, "unchecked counter arithmetic `%s` on the counter type: counts can wrap or saturate silently" % decl)
     ctx.floor("R02-checked-only", n_checked, 3, "checked_add sites on the counter type")
 
+    # ---- is_empty: every cell is zero -------------------------------------------------------------------------
+    ie = ctx.anchor(CMS + "::is_empty")
+    if ie is not None:
+        r = TermBuilder(ie, prog).return_term()
+        okie = r[0] == "call" and r[1].endswith("::all") and r[2][0] == ("field", selfp, "table")
+        if okie:
+            from ..terms import apply_closure
+            pred = apply_closure(r[2][1], (("elem", ("dummy",)),))
+            okie = pred[0] == "call" and pred[1].endswith("is_zero") and pred[2] == (("elem", ("dummy",)),)
+        ctx.check(okie, "R02-is-empty", ie.key, ie, "is_empty == table.iter().all(is_zero) over the whole table", "is_empty is %s — not `every cell of the table is zero`" % fmt(r)[:200])
     # ---- merge guards (shared with C06) ----------------------------------------------------------------------
     mg = ctx.anchor(CMS + "::merge")
     if mg is not None:
@@ -166,6 +176,16 @@ def run(ctx):
         for g in guards or []:
             cov |= fields_mentioned(g)
         ctx.check({"w", "d", "builder"} <= cov, "R02-merge", mg.key, mg, "merge asserts equal d, w and hasher before adding tables", "merge lacks a compatibility assert (covered: %s)" % sorted(cov))
+        pem = PathEnumerator(mg, prog, ctx.summ)
+        nm = sk = 0
+        for p in pem.paths():
+            if p.exit_kind != "return":
+                continue
+            nm += 1
+            if not [e for e in p.events if e["kind"] == "write" and self_field(e) == "table" and e["how"] == "store"]:
+                sk += 1
+        ctx.check(nm >= 1 and sk == 0, "R02-merge", mg.key + ":always-adds", mg, "every returning path of merge replaces the table by the cell-wise sum",
+                  "merge returns without adding the tables on %d of %d paths (a shortcut that drops other's counts)" % (sk, nm))
 
 
 def erase_obj(t):
